@@ -686,7 +686,11 @@ def run(ck: Check):
                ("urn:a", "b", [["ns1", "urn:b"]]), ("urn:a", "b", [[None, "urn:a"]]), ("http://www.w3.org/2001/XMLSchema", "int", []),
                # generate_prefix (repo e811fed): a taken standard prefix, taken ns<k> candidates
                ("http://www.w3.org/2001/XMLSchema", "int", [["xs", "urn:o"]]), ("urn:c", "x", [["ns2", "urn:u"], ["ns3", "urn:v"], ["a", "urn:a"]]),
-               ("urn:c", "x", [["ns1", "urn:u"]]), ("http://www.w3.org/2001/XMLSchema-instance", "nil", [["xsi", "urn:o"], ["ns1", "urn:p"]])]
+               ("urn:c", "x", [["ns1", "urn:u"]]), ("http://www.w3.org/2001/XMLSchema-instance", "nil", [["xsi", "urn:o"], ["ns1", "urn:p"]]),
+               # runs of taken candidates: ns<len>, ns<len+1>, ... are all bound (seed C05-r5m2: a single retry)
+               ("urn:c", "x", [["ns2", "urn:u"], ["ns3", "urn:v"]]), ("urn:c", "x", [["ns3", "urn:u"], ["ns4", "urn:v"], ["ns5", "urn:a"]]),
+               ("urn:c", "x", [["ns1", "urn:u"], ["ns2", "urn:v"], ["ns3", "urn:a"], ["ns4", "urn:b"]]),
+               ("http://www.w3.org/2001/XMLSchema", "int", [["xs", "urn:o"], ["ns2", "urn:u"], ["ns3", "urn:v"]])]
     for n in range(180 * N + len(fixed_v)):
         if n < len(fixed_v):
             uri, local, m = fixed_v[n]
@@ -694,6 +698,11 @@ def run(ck: Check):
             uri = r.choice([None, None] + URIS[:8] * 3 + URIS)
             local = r.choice(LOCALS) if r.random() < 0.93 else r.choice(BAD_LOCALS[1:])
             m = g_nsmap(r, uri)
+            if m is not None and r.random() < 0.12:
+                # a map whose generated-prefix candidates are taken: ns<k> .. ns<k+j> starting at or just after len(map)
+                j = r.randint(1, 3)
+                k0 = len(m) + j + r.choice([-1, 0, 0, 0, 1])
+                m = [e for e in m if not (e[0] or "").startswith("ns")] + [[f"ns{k0 + i}", r.choice(URIS[:8])] for i in range(j)]
         add({"op": "roundtrip", "type": "QName", "v": {"t": "QName", "v": qtext(uri, local)}, "ns_map": m}, kind="qname_ser", uri=uri, local=local, m=m)
         add({"op": "ser", "v": {"t": "QName", "v": qtext(uri, local)}, "ns_map": m}, kind="qname_ser2", uri=uri, local=local, m=m)
 
